@@ -258,7 +258,7 @@ class C02(RenderProp):
     id = "C02"
     n_quick = 1500
     n_thorough = 25000
-    required_theorems = ["C02_extract", "C02_cap_about_ten_thousand", "C02_while_never_hangs", "C02_while_stops", "C02_while_continues", "C02_if_selects", "C02_if_chain", "C02_each_array_items", "C02_each_object_items", "C02_each_object_null_member_visited", "C02_object_literal_order", "C02_each_missing", "C02_each_step", "C02_each_empty", "C02_loop_skeleton", "C02_if_end_to_end", "C02_each_end_to_end"]
+    required_theorems = ["C02_extract", "C02_cap_about_ten_thousand", "C02_while_never_hangs", "C02_while_stops", "C02_while_continues", "C02_if_selects", "C02_if_chain", "C02_each_array_items", "C02_each_object_items", "C02_each_object_null_member_visited", "C02_object_literal_order", "C02_object_literal_compiles", "C02_each_missing", "C02_each_step", "C02_each_empty", "C02_loop_skeleton", "C02_if_end_to_end", "C02_each_end_to_end"]
     assumptions = ["the executor model (PugModel.Tpl.Exec) is hand-written; its agreement with tpl_exec.go is validated by the correspondence"]
     rule = ("random control-flow programs: if/else-if/else chains (boolean, numeric, string, null and undefined tests), case with "
             "default in any position, each over data arrays / literal arrays / objects (data maps and literals) / missing and empty "
